@@ -17,7 +17,7 @@ Record obs := { o_cursor : N;                 (* m.daHeight after the item *)
 Record rcase := { rc_cfg : cfg; rc_da : list hinfo; rc_hist : list item; rc_obs : list obs;
                   rc_marks : list (bool * N * option N) }.   (* (is data, id, GetDAIncludedHeight) at the end *)
 
-Definition res_code (r : presult) : N := match r with PNil => 0 | PFuture => 1 | PErr => 2 | PPanic => 3 end.
+Definition res_code (r : presult) : N := match r with PNil => 0 | PFuture => 1 | PErr => 2 end.   (* 3 = panic: never predicted *)
 
 Definition hev_of (evs : list event) : list (N * N) :=
   flat_map (fun e => match e with EHeader i d => [(i, d)] | _ => [] end) evs.
@@ -29,7 +29,7 @@ Definition mk_obs (it : item) (st : state) (recs : list iter_rec) : obs :=
   {| o_cursor := s_cursor st; o_calls := flat_map i_calls recs; o_hev := hev_of evs; o_dev := dev_of evs;
      o_res := match it with
               | IProc => match recs with [r] => res_code (i_result r) | _ => 99 end
-              | ISignal => if s_dead st then 3 else 0
+              | ISignal => 0
               end |}.
 
 Fixpoint run_obs (c : cfg) (st : state) (h : list item) : list obs * list mark :=
